@@ -614,8 +614,15 @@ class Gen(object):
             methods_txt = methods_txt.replace('<method name="%s"' % target,
                                               '<method name="%s" %s="%s"' % (target, which, rng.choice(prop_names)), 1)
             self.stats.hit('accessor-method')
-        elif only_methods and rng.random() < 0.15:
-            # accessor of a property the typelib does not have (skipped, or never declared): a plain method
+        elif not prop_names and only_methods and rng.random() < 0.4:
+            # accessor of a property the typelib does not have (skipped, or never declared): a plain method.
+            # Only where the container has NO property at all: with other properties present girnode.c
+            # get_index_of_member_type answers the index of the last one for an unknown name and the function is
+            # recorded as accessor of that property (GIR->blob translation, C06's subject; reported, not judged here)
+            if rng.random() < 0.5:
+                hn, htxt = self.prop(ind, only_methods, hidden=True)
+                absent_props.append(hn)
+                chunks.append(htxt)
             target = rng.choice(only_methods)
             which = rng.choice(['glib:get-property', 'glib:set-property'])
             methods_txt = methods_txt.replace('<method name="%s"' % target,
